@@ -48,7 +48,10 @@ class BootstrapProposalDistribution(ProposalDistribution):
             else:
                 old_num_roots = len(self.parent_particle.tree_roots)
 
-                log_p = np.log((1 - self.outlier_proposal_prob) / 2)
+                if len(self.parent_tree.nodes) == 0:
+                    log_p = np.log(1 - self.outlier_proposal_prob)
+                else:
+                    log_p = np.log((1 - self.outlier_proposal_prob) / 2)
 
                 if old_num_roots > 0:
                     if isinstance(tree, Tree):
